@@ -418,6 +418,65 @@ example :
       [[0, 14], [0, 0, 1, 1, 1, 1, 1, 1, 1], [1, 1, 1, 1, 1]]).toOption = some [0, 0, 1, 1, 1, 1, 1, 1, 1, 2, 2, 2, 2, 2] ∧
     (doqReturn 0 0 [[0, 14], [0, 0, 1, 1, 1, 1, 1, 1, 1], [1, 1, 1, 1, 1]]).toOption = some [0, 0, 1, 1, 1, 1, 1, 1, 1, 1, 1, 1, 1, 1] := by decide
 
+/-! ## the byte pool: a buffer has one holder at a time -/
+
+theorem pool_step_clash (s s' : BufPool) (l : PLabel) (hs : s.step true l = some s') : s'.clash = s.clash := by
+  cases l with
+  | get g b =>
+    simp only [BufPool.step, Bool.true_and] at hs
+    split at hs
+    · simp only [Option.some.injEq] at hs; subst hs; rfl
+    · cases hs
+  | look g b => simp [BufPool.step] at hs
+  | take g => simp [BufPool.step] at hs
+  | release g b =>
+    simp only [BufPool.step] at hs
+    split at hs
+    · simp only [Option.some.injEq] at hs; subst hs; rfl
+    · cases hs
+
+/-- a buffer that `GetBuf` returns was held by nobody at that moment, and it is its taker's until the taker
+releases it: no later `get` of another goroutine is enabled on it -/
+theorem pool_get_excludes (s s' : BufPool) (g b : Nat) (hs : s.step true (.get g b) = some s') :
+    s.holder b = none ∧ s'.holder b = some g ∧ ∀ g', s'.step true (.get g' b) = none := by
+  simp only [BufPool.step, Bool.true_and] at hs
+  split at hs
+  · rename_i hn
+    simp only [Option.some.injEq] at hs; subst hs
+    refine ⟨by simpa using hn, upd_same _ _ _, ?_⟩
+    intro g'
+    simp [BufPool.step, upd_same]
+  · cases hs
+
+/-- **With `GetBuf` being the free list's own `Get`, no buffer is ever given to a second goroutine while the
+first still holds it** - for any number of goroutines and buffers and every interleaving of their gets and
+releases. -/
+theorem pool_single_owner (ls : List PLabel) : ∀ (s s' : BufPool), s.run true ls = some s' → s'.clash = s.clash := by
+  induction ls with
+  | nil => intro s s' hr; simp only [BufPool.run, Option.some.injEq] at hr; subst hr; rfl
+  | cons l ls ih =>
+    intro s s' hr
+    simp only [BufPool.run] at hr
+    cases hs : s.step true l with
+    | none => rw [hs] at hr; cases hr
+    | some s1 => rw [hs] at hr; rw [ih s1 s' hr, pool_step_clash s s1 l hs]
+
+/-- ... which is what pkg/pool/allocator.go has (regenerated fact) -/
+theorem pool_single_owner_gen (ls : List PLabel) (s : BufPool)
+    (hr : ({} : BufPool).run (Gen.Facts.c01PoolGetIsFreeListGet == some true) ls = some s) : s.clash = [] := by
+  have h : (Gen.Facts.c01PoolGetIsFreeListGet == some true) = true := by decide
+  rw [h] at hr
+  exact pool_single_owner ls _ s hr
+
+/-- the seeded defect "a spare buffer in a slot that GetBuf reads and clears in two instructions": goroutine 0
+releases buffer 7, goroutines 1 and 2 both find it free, both take it: 2 is given a buffer that 1 holds -/
+example : ((({} : BufPool).run false [.look 0 7, .take 0, .release 0 7, .look 1 7, .look 2 7, .take 1, .take 2]).map (·.clash)) =
+    some [(7, 1, 2)] := by decide
+/-- non-vacuity of the one-step pool: buffers go round among goroutines -/
+example : ((({} : BufPool).run true [.get 0 7, .release 0 7, .get 1 7, .get 2 8, .release 1 7, .get 2 7]).map (fun s => (s.holder 7, s.holder 8, s.clash))) =
+    some (some 2, some 2, []) := by decide
+example : (({} : BufPool).run true [.get 0 7, .get 1 7]).isNone = true := by decide
+
 /-! ## tie to the source: regenerated facts -/
 
 theorem facts_guard :
@@ -429,7 +488,7 @@ theorem facts_guard :
     Gen.Facts.c01DoqIdZeroedAndRestored = some true ∧ Gen.Facts.c01ReuseLeaveKeepsSlot = some true ∧
     Gen.Facts.c01ReuseOneWaiter = some true ∧ Gen.Facts.c01ReuseReaderDispatch = some true ∧
     Gen.Facts.c01ReuseSetIdleCallSites = some 2 ∧ Gen.Facts.c01ReuseTakeRemovesFromIdle = some true ∧
-    Gen.Facts.c01FallbackBufPaths.isSome = true := by decide
+    Gen.Facts.c01FallbackBufPaths.isSome = true ∧ Gen.Facts.c01PoolGetIsFreeListGet = some true := by decide
 
 /-! ## non-vacuity -/
 
